@@ -18,7 +18,8 @@ Clauses of the property:
 * "predict_freq is non-negative": `freq_nonneg`, `freq_nonneg_neighbors`, `freq_nonneg_mixture`;
 * "predict returns only members of classes_ that minimise the expected cost (the most probable class
   by default)": `predict_min_cost`, `predict_most_probable`, `sklearn_predict_cost_branch`,
-  `sklearn_predict_unfitted_member`; false in the unfitted branch of `SklearnClassifier.predict`:
+  `sklearn_predict_unfitted_member`, `cost_matrix_by_label` (declared class order vs `cost_matrix_`);
+  false in the unfitted branch of `SklearnClassifier.predict`:
   `sklearn_unfitted_predict_counterexample`;
 * "declared classes and no labels ⇒ uniform": `normalizeFreq_uniform_of_zero`, `no_labels_uniform`,
   `prior_only_uniform`, `fallback_uniform`, `divRow_uniform`.
@@ -328,6 +329,31 @@ theorem predict_min_cost (classes : List γ) (P C : List (List α)) (noise : Lis
     simp only [Option.getD_some]
     exact hmin _ (List.mem_map.mpr ⟨row[j], List.getElem_mem _, rfl⟩)
 
+/-- **cost matrix by label**: for pairwise distinct declared `classes` (in any order) the matrix
+`cost_matrix_` used by `predict` holds, at the positions of two labels inside the sorted `classes_`
+(position = number of smaller labels), exactly the user's entry for these two labels: the cost of
+predicting `classes[j]` for true class `classes[i]` is `cost_matrix[i][j]` whatever the declared order. -/
+theorem cost_matrix_by_label {γ : Type} [LinearOrder γ] (cls : List γ) (hnd : cls.Nodup) (C : List (List α))
+    (i j : Nat) (hi : i < cls.length) (hj : j < cls.length) :
+    ((permuteCost cls C).getD (searchsorted cls cls[i]) []).getD (searchsorted cls cls[j]) 0 =
+      (C.getD i []).getD j 0 := by
+  have ri := searchsorted_lt_length cls cls[i] (List.getElem_mem hi)
+  have rj := searchsorted_lt_length cls cls[j] (List.getElem_mem hj)
+  have ai := argsortL_rank cls hnd i hi ri
+  have aj := argsortL_rank cls hnd j hj rj
+  have hl : (argsortL cls).length = cls.length := by simp [argsortL]
+  rw [List.getD_eq_getElem?_getD, List.getElem?_eq_getElem (by rw [hl]; exact ri)] at ai
+  rw [List.getD_eq_getElem?_getD, List.getElem?_eq_getElem (by rw [hl]; exact rj)] at aj
+  simp only [Option.getD_some] at ai aj
+  have hrow : (permuteCost cls C).getD (searchsorted cls cls[i]) [] =
+      (argsortL cls).map (fun b => (C.getD i []).getD b 0) := by
+    unfold permuteCost
+    simp only
+    rw [List.getD_eq_getElem?_getD, List.getElem?_map, List.getElem?_eq_getElem (by rw [hl]; exact ri)]
+    simp only [Option.map_some, Option.getD_some, ai]
+  rw [hrow, List.getD_eq_getElem?_getD, List.getElem?_map, List.getElem?_eq_getElem (by rw [hl]; exact rj)]
+  simp only [Option.map_some, Option.getD_some, aj]
+
 /-- **most probable class by default**: with `cost_matrix_ = 1 - eye(k)` the returned class has the
 largest probability in its row. -/
 theorem predict_most_probable (classes : List γ) (P : List (List α)) (noise : List (List β))
@@ -448,6 +474,10 @@ example : IsSimplex (α := Rat) 3 [1/2, 1/2, 0] := by
   refine ⟨rfl, ?_, ?_⟩
   · intro x hx; simp at hx; rcases hx with rfl | rfl | rfl <;> norm_num
   · simp [sumL, sumFrom]; norm_num
+
+/-- classes declared as `[20, 30, 10]` with an asymmetric cost matrix: `cost_matrix_` in sorted order. -/
+example : permuteCost (α := Int) [20, 30, 10] [[0, 1, 2], [3, 0, 4], [5, 6, 0]] = [[0, 5, 6], [2, 0, 1], [4, 3, 0]] := by
+  decide
 
 /-- declared classes `[10,20,30]`, estimator has seen `[10,30]`: positions `[0,2]`. -/
 example : classIndices [10, 20, 30] [10, 30] = [0, 2] := by decide
